@@ -260,6 +260,7 @@ SHAPES = {
     "map-mutated-during-iteration": "let m = {1: 1, 2: 2, 3: 3};\ntry { for kv in m { m[kv[0] + 10] = 1; m.remove(kv[0]); } } catch e { print(e.message); }\nprint(\"end\");",
     "list-mutated-during-iteration": "let l = [1, 2, 3];\nlet n = 0;\nfor x in l { n += 1; if n < 50 { l.push(x); } l.pop(); l.pop(); }\nprint(l.len());",
     "undefined-before-definition": "try { print(later); } catch e { print(e.message); }\nlet later = 1;\nprint(later);",
+    "native-fails-under-native-that-succeeds": "fn lv2() {}\nfn lv3(x) { try { [1].iter().each(lv2); } catch e {} return true; }\nprint([1].iter().all(lv3));\nprint([1, 2].iter().map(lv3).list());\nprint(\"end\");",
     "print-no-args": "try { print(); } catch e { print(e.message); }\nprint(\"end\");",
 }
 
